@@ -181,19 +181,72 @@ SwItemIs(it, l) == /\ it.t = "arr" /\ ~it.indef /\ Len(it.items) = Len(l)
 \* claims that must appear on the wire for object o
 Emitted(o) == {c \in WireClaims(o.p) : IF c = "sw" THEN (o.p = "P2" \/ Len(o.sw.l) > 0) ELSE Present(o[c])}
 \* C10: tok is exactly the profile's wire format of the (valid) claims-set o
-WireFormatOK(o, tok) ==
+\* (extra: keys an extension profile adds to the base profile's claims; {} for the built-in profiles)
+WireFormatOKx(o, tok, extra) ==
   /\ tok.t = "map" /\ ~tok.indef /\ ~AnyIndef(tok)              \* a single definite-length map
   /\ AllIntKeys(tok) /\ ~DupKeys(tok)
-  /\ KeySet(tok) = {KeyOf(o.p, c) : c \in Emitted(o)}              \* precisely the keys of the claims that are set
+  /\ KeySet(tok) \ extra = {KeyOf(o.p, c) : c \in Emitted(o)}      \* precisely the keys of the claims that are set
   /\ \A c \in Emitted(o) : LET it == Lookup(tok, KeyOf(o.p, c)) IN
         IF c = "sw" THEN SwItemIs(it, o.sw.l) ELSE ItemIs(it, o[c])   \* right type, exact value, never null
   /\ (o.p = "P1" => ~({KeysP1["sw"], KeysP1["noSw"]} \subseteq KeySet(tok)))      \* never list and flag
+WireFormatOK(o, tok) == WireFormatOKx(o, tok, {})
+NoEntry == [p |-> "P1", canon |-> P1Name, impl |-> "none", tag |-> ""]
+DErr  == [r |-> "err", e |-> NoEntry]
+DOpen == [r |-> "open", e |-> NoEntry]
+
+\* ---------- the JSON form (C12): documented member names, base64 for byte strings, absent optional claims omitted ----------
+JsonNames(p) == [profile |-> IF p = "P1" THEN "psa-profile" ELSE "eat-profile", clientId |-> "psa-client-id",
+                 lifecycle |-> "psa-security-lifecycle", implId |-> "psa-implementation-id", bootSeed |-> "psa-boot-seed",
+                 certRef |-> IF p = "P1" THEN "psa-hwver" ELSE "psa-certification-reference", sw |-> "psa-software-components",
+                 noSw |-> "psa-no-software-measurements", nonce |-> "psa-nonce", instId |-> "psa-instance-id",
+                 vsi |-> "psa-verification-service-indicator"]
+CompJsonNames == [mt |-> "measurement-type", mv |-> "measurement-value", ver |-> "version", sid |-> "signer-id",
+                  desc |-> "measurement-description"]
+\* doc: [name, t, v, b64, hb, hs, n, str, arr, obj] as reported by a generic JSON parser
+Members(d) == {d.obj[i].name : i \in 1..Len(d.obj)}
+Member(d, nm) == d.obj[CHOOSE i \in 1..Len(d.obj) : d.obj[i].name = nm]
+JScalarIs(m, v) ==
+  CASE v.k = "bytes" -> m.t = "string" /\ m.b64 /\ m.hb = v.h /\ m.n = v.n          \* base64 of the value
+    [] v.k = "int"   -> m.t = "number" /\ m.v = v.v
+    [] v.k \in {"text", "str"} -> m.t = "string" /\ m.hs = v.h
+    [] v.k = "prof"  -> m.t = "string" /\ m.str = v.s[1]
+    [] OTHER -> FALSE
+JValueIs(m, v) == IF v.k = "nonces"
+                  THEN IF v.n = 1 THEN JScalarIs(m, v.s[1])
+                       ELSE m.t = "array" /\ Len(m.arr) = v.n /\ \A i \in 1..v.n : JScalarIs(m.arr[i], v.s[i])
+                  ELSE JScalarIs(m, v)
+JCompIs(m, c) == /\ m.t = "object"
+                 /\ Members(m) = {CompJsonNames[f] : f \in {g \in CompFields : Present(c[g])}}
+                 /\ \A f \in CompFields : Present(c[f]) => JScalarIs(Member(m, CompJsonNames[f]), c[f])
+JSwIs(m, l) == m.t = "array" /\ Len(m.arr) = Len(l) /\ \A i \in 1..Len(l) : ~l[i].nul /\ JCompIs(m.arr[i], l[i])
+JsonFormatOKx(o, d, extra) ==
+  /\ d.t = "object"
+  /\ Members(d) \ extra = {JsonNames(o.p)[c] : c \in Emitted(o)}
+  /\ \A c \in Emitted(o) : LET m == Member(d, JsonNames(o.p)[c]) IN
+        IF c = "sw" THEN JSwIs(m, o.sw.l) ELSE JValueIs(m, o[c])
+JsonFormatOK(o, d) == JsonFormatOKx(o, d, {})
+
+\* ---------- profile dispatch of the JSON decoder: the member named by a registered profile's tag ----------
+\* reg entries carry tag = the JSON member name of the implementation's profile field.
+\* Exactly one registered implementation whose tag member holds its own name => that one; several
+\* different => error; none but some non-null profile member present => error; no profile member at
+\* all (or only null) => the default entry (profile 1).  Independent of the register's iteration order.
+JStr(d, nm) == IF nm \in Members(d) THEN Member(d, nm) ELSE [t |-> "absent", str |-> ""]
+DispatchJSON(reg, d) ==
+  IF d.t # "object" THEN DErr
+  ELSE LET names == DOMAIN reg \ {""}
+           matching == {reg[n].impl : n \in {m \in names : JStr(d, reg[m].tag).t = "string" /\ JStr(d, reg[m].tag).str = m}}
+           anyMember == \E n \in DOMAIN reg : JStr(d, reg[n].tag).t \notin {"absent", "null"}
+       IN IF Cardinality(matching) = 1
+          THEN [r |-> "ok", e |-> reg[CHOOSE n \in names : reg[n].impl \in matching /\ JStr(d, reg[n].tag).str = n]]
+          ELSE IF Cardinality(matching) > 1 THEN DErr
+          ELSE IF anyMember THEN DErr
+          ELSE [r |-> "ok", e |-> reg[""]]
+
 \* ---------- profile dispatch of the CBOR decoder: selector on key 265, "" = the default entry ----------
 \* reg: profile name -> [p |-> rule set, canon |-> canonical name, impl |-> implementation name]
-BaseReg == [n \in {"", P1Name, P2Name} |-> IF n = P2Name THEN [p |-> "P2", canon |-> P2Name, impl |-> "P2"]
-                                                           ELSE [p |-> "P1", canon |-> P1Name, impl |-> "P1"]]
-DErr  == [r |-> "err", e |-> BaseReg[""]]
-DOpen == [r |-> "open", e |-> BaseReg[""]]
+BaseReg == [n \in {"", P1Name, P2Name} |-> IF n = P2Name THEN [p |-> "P2", canon |-> P2Name, impl |-> "P2", tag |-> "eat-profile"]
+                                                           ELSE [p |-> "P1", canon |-> P1Name, impl |-> "P1", tag |-> "psa-profile"]]
 DispatchCBOR(reg, tok) ==
   IF tok.t # "map" \/ tok.indef THEN (IF tok.t = "tag" THEN DOpen ELSE DErr)
   ELSE IF Cardinality(Entries(tok, 265)) > 1 \/ ~KeySpaceOK(tok) THEN DOpen
